@@ -16,6 +16,10 @@ Require Import V.Proofs.C02Proofs.
 Require Import V.Proofs.C02Quiescent.
 Require Import V.Proofs.AppenderMsgs.
 Require Import V.Proofs.C02OracleProofs.
+Require Import V.Proofs.C02Words.
+Require Import V.Proofs.C02Trace.
+Require Import V.Proofs.C02OracleFull.
+Require Import V.Proofs.C02Example.
 Open Scope Z_scope.
 
 (* The invariant holds in every configuration reachable by ANY number of publisher (and environment) threads
@@ -140,15 +144,47 @@ Theorem C02_quiescent_rotation : forall c, wf_cfg c -> forall s gh P,
 Proof. exact quiescent_rotation. Qed.
 Print Assumptions C02_quiescent_rotation.
 
-(* the oracle applied to the model's own results: its results part (everybody Done, every answer allowed, per-publisher
-   positions increasing) is true on every quiescent configuration the model can reach, for any number of threads.
-   PARTIAL: the log part of holds_C02 (walk of the rendered dump, reassembly, count/tails) is not proved true on every model
-   run - it needs the render/decode round trip of the word dump; it is evaluated on the model for every case instead. *)
+(* THE ORACLE ON THE MODEL.  The whole decidable predicate holds_C02 that judges the implementation's observations - results
+   part AND log part: the walk over the rendered words of every partition, coverage of every dumped word by a walked frame,
+   padding only at a term end, reassembled data messages = accepted offers of that generation (same end positions, same bytes,
+   nothing else), all positions distinct, count / tails (each filled term rotated exactly once) - is `true` on the observation
+   (trace, per-thread results, dump) of EVERY quiescent configuration the thread model can reach:
+   any number of threads, any message lists of bytes, every interleaving of admissible steps.
+   reacht = reachm (publishers started with the lists `orig`) carrying the trace of the events of the steps taken
+   (the oracle reads the trace to know which partitions the driver zeroed after the last rotation into them).
+   The proof goes through the render / decode round trip between the slot-level state and the word dump
+   (Proofs/C02Words, C02Render, C02Frames, C02GenFrames), C02_accepted_message and the ghost claim lists. *)
+Theorem C02_oracle : forall c, wf_cfg c -> forall orig s th gh tr n stop g offers,
+  (forall t m, In m (orig t) -> Forall byte m) ->
+  reacht c orig s th gh tr -> all_done th -> length offers = n ->
+  (forall t l, th t = TPub l -> (t < n)%nat /\ nth t offers [] = orig t) ->
+  holds_C02 c offers
+    (map ev_tuple tr, map (fun t => thread_obs stop g t (th t)) (seq 0 n), dump c s, @nil (Z * Z * Z * Z * list Z)) = true.
+Proof. intros c W orig s th gh tr n stop g offers OB R D Hlen Hpub.
+  exact (oracle_full c W orig OB s th gh tr R D n stop g offers Hlen Hpub). Qed.
+Print Assumptions C02_oracle.
+
+(* every reacht configuration is a reach configuration: all theorems above apply to it *)
+Theorem C02_reacht_reach : forall c orig s th gh tr, reacht c orig s th gh tr -> reach c s th gh.
+Proof. intros c orig s th gh tr R. exact (reachm_reach c orig s th gh (reacht_reachm c orig s th gh tr R)). Qed.
+Print Assumptions C02_reacht_reach.
+
+(* the former partial statement (results part only, for `reach`): kept under its name; for reacht it is a consequence of C02_oracle *)
 Theorem C02_oracle_results_partial : forall c, wf_cfg c -> forall s th gh n stop g offers,
   reach c s th gh -> all_done th -> length offers = n ->
   holds_results offers (map (fun t => thread_obs stop g t (th t)) (seq 0 n)) = true.
 Proof. exact oracle_results_model. Qed.
 Print Assumptions C02_oracle_results_partial.
+
+Corollary C02_oracle_results : forall c, wf_cfg c -> forall orig s th gh tr n stop g offers,
+  (forall t m, In m (orig t) -> Forall byte m) ->
+  reacht c orig s th gh tr -> all_done th -> length offers = n ->
+  (forall t l, th t = TPub l -> (t < n)%nat /\ nth t offers [] = orig t) ->
+  holds_results offers (map (fun t => thread_obs stop g t (th t)) (seq 0 n)) = true.
+Proof. intros c W orig s th gh tr n stop g offers OB R D Hlen Hpub.
+  pose proof (C02_oracle c W orig s th gh tr n stop g offers OB R D Hlen Hpub) as H. unfold holds_C02 in H. cbv beta iota zeta in H.
+  do 12 (apply andb_prop in H; destruct H as (H & _)). exact H. Qed.
+Print Assumptions C02_oracle_results.
 
 (* the known class is inhabited: publisher 0 parked between the tail read and its get_and_add while publisher 1
    fills three terms panics and the property's predicate fails on that run *)
@@ -183,3 +219,14 @@ Proof. intros c th.
   pose proof (reach_step c _ th ghost0 0%nat _ _ _ R0 I eq_refl) as R1.
   pose proof (reach_step c _ _ _ 1%nat _ _ _ R1 I eq_refl) as R2.
   eexists. eexists. eexists. split; [exact R2|]. eexists. split; reflexivity. Qed.
+
+(* the hypotheses of C02_oracle are satisfiable by a non-trivial run: two publishers, interleaved, both messages accepted,
+   everybody done (Proofs/C02Example.v: an executable run whose steps are checked admissible) - and on it the oracle is true *)
+Example C02_example_oracle : exists s th gh tr,
+  reacht ex_cfg ex_orig s th gh tr /\ all_done th /\
+  (exists l0 l1, th 0%nat = TPub l0 /\ th 1%nat = TPub l1 /\ p_res l0 = [Ok 1344] /\ p_res l1 = [Ok 1248]) /\
+  holds_C02 ex_cfg ex_offers
+    (map ev_tuple tr, map (fun t => thread_obs (fun _ => None) (fun _ => O) t (th t)) (seq 0 2), dump ex_cfg s, @nil (Z * Z * Z * Z * list Z)) = true.
+Proof. destruct ex_reach as (s & th & gh & tr & R & D & Hpub & Hres). exists s, th, gh, tr.
+  repeat (split; [assumption|]).
+  apply (C02_oracle ex_cfg ex_wf ex_orig s th gh tr 2%nat _ _ ex_offers ex_bytes R D eq_refl Hpub). Qed.
